@@ -512,5 +512,5 @@ func opAllocPkt(st *state, args []string) []string {
 		verdict = "exceeded"
 	}
 	fmt.Fprintf(os.Stderr, "alloc: len=%d widest=%d alloc=%d budget=%d\n", len(d), widest, alloc, budget)
-	return []string{fmt.Sprintf("%s n=%d budget=%s", classify(err), pe.cap.count, verdict)}
+	return []string{fmt.Sprintf("%s n=%d budget=%s", classify(err), pe.cap.count, verdict), fmt.Sprintf("alloc %d %d", alloc, len(d))}
 }
